@@ -219,6 +219,7 @@ type c08Run struct {
 	GMP       int
 	DelayMode int // 0 none, 1 random yields/sleeps, 2 additionally hold consumers in the gap until close is announced
 	Seed      uint64
+	Index     int
 }
 
 func c08Hash(s string, salt uint64) uint64 {
@@ -527,7 +528,7 @@ func (r *c08Run) desc(obs *c08Obs) map[string]interface{} {
 	if c08Count(r.Root) > 80 {
 		root = fmt.Sprintf("%s tree with %d nodes (regenerated from seed)", r.Kind, c08Count(r.Root))
 	}
-	return map[string]interface{}{"op": "run", "kind": r.Kind, "tree": root, "consumers": r.C, "producents": r.P,
+	return map[string]interface{}{"index": r.Index, "op": "run", "kind": r.Kind, "tree": root, "consumers": r.C, "producents": r.P,
 		"dirfilter": r.HasDF, "filefilter": r.HasFF, "ondir": r.OnDir, "onfile": r.OnFile, "salt": r.Salt,
 		"cb_error_on": r.CbErr, "readdir_error_on": r.RdErr, "gomaxprocs": r.GMP, "delay_mode": r.DelayMode, "run_seed": r.Seed,
 		"observed": items, "max_concurrent": obs.MaxConc, "errors": obs.NErrors, "hang": obs.Hang, "panic": obs.Panic}
@@ -806,11 +807,22 @@ func runC08(o *Out, rng *RNG, tier string, replay string) {
 		"oracles: callback multiset = independently computed selected set (sub-multiset when an error was injected), max concurrent callbacks <= Consumers, "+
 		"no callback running or starting after Wait(), injected error => Errors() non-empty, no error => Errors() empty, watchdog 30 s; "+
 		"every run is also a Coq case: observed callback list vs Model.Loop.sel_list on (tree, filter tables)", rep, n)
-	c08Forced(o, rep)
-	c08ErrorStorm(o, rng.Fork(), tier)
+	only := replayIndex(replay)
+	if only < 0 {
+		c08Forced(o, rep)
+	}
+	stormRng := rng.Fork()
+	if only < 0 {
+		c08ErrorStorm(o, stormRng, tier)
+	}
 	wideEmitted := 0
 	for i := 0; i < n; i++ {
-		r := c08GenRun(rng.Fork(), tier, i)
+		rr := rng.Fork()
+		if only >= 0 && i != only {
+			continue
+		}
+		r := c08GenRun(rr, tier, i)
+		r.Index = i
 		emit := true
 		if r.Kind == "wide1500" {
 			wideEmitted++
